@@ -1,6 +1,6 @@
 """C09 -- operators refuse invalid inputs (guards)."""
 from ..core import Ctx, Ob, PropSpec
-from ..rules import r8, extra
+from ..rules import r7d, r8, extra
 
 
 def run(ctx: Ctx) -> list[Ob]:
@@ -19,6 +19,8 @@ def run(ctx: Ctx) -> list[Ob]:
     )
     obs += extra.from_operation_revalidates(ctx)
     obs += extra.multiply_refusals(ctx)
+    # the refusals are only as good as the predicates they consult
+    obs += r7d.r7d(ctx)
     return obs
 
 
@@ -32,9 +34,12 @@ SPEC = PropSpec(
         "query-side checks of IntegrateQuery / SamplingQuery; the per-layer re-validation in Circuit.__init__) the function cannot "
         "reach a normal exit under ANY valuation of its other conditions: CFG edges contradicted by the precondition are pruned and "
         "EXIT must be unreachable (truth-table enumeration, no solver); Circuit.from_operation ends in cls(..) so every operator "
-        "result is re-validated; the explicit NotImplementedError refusals of multiply dominate construction."
+        "result is re-validated; the explicit NotImplementedError refusals of multiply dominate construction; R7d: the predicates those "
+        "guards consult say what they must -- is_smooth / is_decomposable quantify over every sum input / every unordered pair of "
+        "product inputs, and _are_compatible refuses a common scope that either side factorizes in more than one way (otherwise "
+        "integrate / multiply accept operands they have to refuse)."
     ),
     not_decided="the 'results keep the promised structure' clause (structural flags of generated circuits are run-time facts) -- not claimed.",
     run=run,
-    floors={"R8": 28},
+    floors={"R8": 28, "R7d": 5},
 )
